@@ -100,6 +100,8 @@ func LeafOn(r *rand.Rand, p Path) ref.Stmt {
 		o := v
 		if r.IntN(2) == 0 {
 			o = Value(r, 1, ValOpts{})
+		} else if r.IntN(2) == 0 {
+			o = ReorderMaps(r, v) // same data, map entries listed in another order
 		}
 		return ref.Stmt{Kind: "==", Sel: p.Sel, Val: o}
 	}
@@ -228,3 +230,22 @@ func ArgsMap(r *rand.Rand) ref.V {
 }
 
 func DescribePolicy(p ref.Policy) string { return fmt.Sprint(p.String()) }
+
+// ReorderMaps returns the same value with the entries of every map (at any depth)
+// listed in a random order.
+func ReorderMaps(r *rand.Rand, v ref.V) ref.V {
+	o := v
+	switch v.K {
+	case ref.KList:
+		o.L = make([]ref.V, len(v.L))
+		for i := range v.L {
+			o.L[i] = ReorderMaps(r, v.L[i])
+		}
+	case ref.KMap:
+		o.M = make([]ref.KV, len(v.M))
+		for i, j := range r.Perm(len(v.M)) {
+			o.M[i] = ref.KV{K: v.M[j].K, V: ReorderMaps(r, v.M[j].V)}
+		}
+	}
+	return o
+}
